@@ -7,7 +7,10 @@ G  spec/Gen_Synch.tla: every decomposition with its expected results, replayed o
    Global::Matrix::apply; hook H4 forces every permutation index of the neighbour processing order.
 X  lib/c13x.py: distributed matrices (spec/SynchMat.tla model checked, spec/Gen_GlobalMat.tla -> harness/c13_gmat.cpp), blocked / tuple
    vectors, scalar reductions, *_async variants, Splitter, filters (spec/Gen_SynchB.tla) and Muxer hierarchies (spec/Gen_Muxer.tla)
-   -> harness/c13_gvec.cpp.
+   -> harness/c13_gvec.cpp; Global::Transfer across process layers with ghost processes (spec/Gen_XferLayers.tla -> harness/c13_xfer.cpp).
+R  spec/Renum.tla: every generator also enumerates a LOCAL renumbering per rank (identity, reversal, rotation, ...; all permutations of
+   three dofs in the thorough tier), so vector mirrors, row/column mirrors of the matrix buffers, splitter and muxer mirrors are not
+   monotone in general; all expected values are emitted in the permuted local numbering by the specification.
 """
 import json, os, shutil
 import concurrent.futures as cf
@@ -215,7 +218,17 @@ def run(chk):
                 "orders); Gen_GlobalMat (every row/column decomposition x pattern variant; CSR, BCSR 2x2, BCSR 2x3: convert_to_1, extract_diag, lump_rows, "
                 "apply*, global sizes), Gen_SynchB (blocked/tuple vectors, scalar reductions, all *_async variants, Splitter with frame conditions, "
                 "Global::Filter/MeanFilter) and Gen_Muxer (all compositions of 2..6 ranks into sibling groups x parent choice x child patches of unequal "
-                "size) are replayed on real MPI ranks with exact integer comparison")
-    chk.assumptions = ["gate-level cases are built directly from the decomposition (mirrors in ascending global dof order); the control layer (partitioning, "
+                "size) are replayed on real MPI ranks with exact integer comparison.  Local numberings (spec/Renum.tla): every generator enumerates, "
+                "per rank, a renumbering of the local dofs (identity, reversal, rotation by one; thorough: all six permutations of a patch of three "
+                "dofs for <= 3 ranks) and emits, besides the all-ascending numbering, every combination with at least one NON-MONOTONE mirror "
+                "(vector mirrors, row and column mirrors of CSR/BCSR matrix buffers, splitter patch mirrors, tuple components); renumbered gate-level "
+                "cases are replayed with the natural and one forced arrival order (thorough: all orders for <= 3 ranks).  Gen_XferLayers: "
+                "Global::Transfer over a Muxer for every composition of 1..4 (thorough 6) ranks into sibling groups x parent choice (first/last) x "
+                "parent patches x child patches (renumbered) x fine decompositions: restriction, truncation (distinct matrices) and prolongation "
+                "of exact-integer vectors, parents through rest/trunc/prol, GHOST processes through rest_send/trunc_send/prol_recv, a transfer "
+                "without muxer on one-rank groups and a clone(); expected = the single-process result (law: equals the documented layer-wise combination)")
+    chk.assumptions = ["gate-level cases are built directly from the decomposition: the BUFFER order of every mirror pair is the ascending global dof order "
+                       "(the local numbering of each patch is enumerated: identity/reversal/rotation/...), the fine and the parent patches of the layered "
+                       "transfer cases are numbered ascending (their child patches are renumbered); the control layer (partitioning, "
                        "gate/muxer assembly, multi-layered hierarchies) is exercised through the poisson application runs only",
                        "OpenMPI in one node with oversubscription; arrival orders in the real runs are forced through hook H4, all orders only in the model"]
